@@ -6027,8 +6027,21 @@ class CodegenCtx:
             if transition.target in self.dfa.accepting_states:
                 transition_body.add(f"return {self.program_name.upper()}_DONE;")
             else:
+                transition_body.add(self._generate_enter_fail_state())
                 transition_body.add(f"return {self.program_name.upper()}_FAIL;")
         return transition_body.value()
+
+    def _generate_enter_fail_state(self):
+        """
+        Once FAIL has been reported every later call must report it too, also when it was end() that found the input incomplete in
+        a state which stays usable otherwise (e.g. in the middle of a wait). If the fail state itself was optimized away any value
+        outside the state range does (both switches default to FAIL).
+        """
+
+        if self.generic_fail_state in self.dfa.states:
+            return f"state->state = {self.dfa.states.index(self.generic_fail_state)};"
+        else:
+            return f"state->state = {len(self.dfa.states)};"
 
     def _generate_condition(self, condition: DFCondition, from_end=False, from_action=False):
         use_ctx = {
@@ -6194,6 +6207,7 @@ class CodegenCtx:
         if state in self.dfa.accepting_states:
             result.add(f"return {self.program_name.upper()}_DONE;")
         else:
+            result.add(self._generate_enter_fail_state())
             result.add(f"return {self.program_name.upper()}_FAIL;")
         return result.value()
     
